@@ -521,6 +521,31 @@ func (e *Engine) mergeStates(fork *node, forkKnown *knownSet, arr []*State) *Sta
 			}
 			it.visited = m.define("visited", "(Array "+sortOfKind(it.keyKind)+" Bool)", r)
 		}
+		// the "an iteration has begun" flag merges the same way
+		var sts []string
+		sameS := true
+		for _, a := range arr {
+			ai := a.iters[k]
+			if ai == nil {
+				sts = nil
+				break
+			}
+			s := ai.started
+			if s == "" {
+				s = "false"
+			}
+			if len(sts) > 0 && sts[0] != s {
+				sameS = false
+			}
+			sts = append(sts, s)
+		}
+		if !sameS && len(sts) == len(arr) {
+			r := sts[len(sts)-1]
+			for i := len(sts) - 2; i >= 0; i-- {
+				r = sIte(pcs[i], sts[i], r)
+			}
+			it.started = m.define("started", "Bool", r)
+		}
 	}
 	for _, a := range arr {
 		if a.steps > m.steps {
